@@ -159,6 +159,20 @@ CLAIMED = {
     technique="contract-based deductive verification: generators as procedures against an assumed unit contract, loop "
               "invariant for the whole-bank read, callee contract (uninterpreted result) for from_list; z3 QF_BV",
     note=TB + "; unit contract contracts/units/memory.py assumed (single bank, at most one hole, lock byte implemented)"),
+ "C10": dict(
+    category="proof",
+    text="The real write_raw of every declared memory value (and write for plain numbers and strings) is executed "
+         "symbolically against the assumed memory-access contract with symbolic image, DTR0/1, write-enable, lock byte, last "
+         "location, hole, protection flag and the property's unit variants (DTR0 not advancing, non-standard unlock value, "
+         "wrong echo, wrong stored byte) plus one silence/framing error on any answer: every normal return is proved to have "
+         "stored exactly the bytes at exactly the value's locations, changed no other location and left a lockable bank's lock "
+         "byte at 0xFF; every other outcome is one of MemoryLocationNotWriteable / MemoryWriteFailure / ResponseError; "
+         "read-only values and wrong lengths are refused with an empty command trace; a conforming unit always succeeds.",
+    design_ref="DESIGN.md 6 (C10), 3.7",
+    technique="contract-based deductive verification: generator as procedure against an assumed unit contract with fault "
+              "and variant flags, z3 QF_BV",
+    note=TB + "; unit contract contracts/units/memory.py assumed; ignore_feedback=True not claimed; the DTR0-not-advancing "
+         "variant is applied to values up to 8 bytes"),
 }
 
 NA_REASON = "check under construction in this round (no obligations built yet); see DESIGN.md section 6"
